@@ -102,6 +102,39 @@ def gen_case(ctx):
                     sy = [s for s, c in hexconv.SIDES.items() if {ops[y]["nodes"][k] for k in c} == common][0]
                     ops[x]["patches"][sx], ops[y]["patches"][sy] = "mM", "mS"
                     merges.append(["mM", "mS"])
+    # a row of three boxes far away, the middle one merged with both neighbours: two declared pairs, either with one
+    # master patch for both or with distinct names (the written list must hold exactly the declared pairs)
+    merge_row = []
+    if rng.random() < 0.3:
+        base = np.array([rng.uniform(-3, 3), -300.0, rng.uniform(-3, 3)])
+        wid = [rng.uniform(0.5, 2) for _ in range(3)]
+        dy, dz = rng.uniform(0.5, 2), rng.uniform(0.5, 2)
+        ny, nz = rng.randint(1, 4), rng.randint(1, 4)
+        shared = rng.random() < 0.5
+        x0 = 0.0
+        for k in range(3):
+            lo, hi = base + np.array([x0, 0.0, 0.0]), base + np.array([x0 + wid[k], dy, dz])
+            x0 += wid[k]
+            op = {"kind": "box", "counts": [rng.randint(1, 4), ny, nz], "graded": {}, "preserved": {}, "args": [list(lo), list(hi)],
+                  "pts": [[(hi if c[i] else lo)[i] for i in range(3)] for c in hexconv.CORNER]}
+            rand_features(rng, op, [])
+            op["proj_sides"], op["proj_edges"], op["proj_corners"] = [], [], []
+            merge_row.append(len(ops))
+            ops.append(op)
+
+        def xside(op, which):
+            xs = [q[0] for q in op["pts"]]
+            lim = max(xs) if which == "hi" else min(xs)
+            return [s for s, c in hexconv.SIDES.items() if all(abs(op["pts"][k][0] - lim) < 1e-9 for k in c)][0]
+
+        a_, b_, c_ = (ops[i] for i in merge_row)
+        names = [("mrM", "mrS0"), ("mrM", "mrS1")] if shared else [("mrM0", "mrS0"), ("mrM1", "mrS1")]
+        b_["patches"][xside(b_, "lo")], a_["patches"][xside(a_, "hi")] = names[0]
+        b_["patches"][xside(b_, "hi")], c_["patches"][xside(c_, "lo")] = names[1]
+        row_pairs = [list(n) for n in names]
+        if rng.random() < 0.5:
+            row_pairs.reverse()
+        merges.extend(row_pairs)
     # disjoint extras
     for k in range(rng.choice([0, 1, 1, 2, 3])):
         off = np.array([40.0 * (k + 1), rng.uniform(-5, 5), rng.uniform(-5, 5)])
@@ -159,7 +192,7 @@ def gen_case(ctx):
         kind = rng.choice(["cylinder", "ring", "hemisphere"])
         shape = {"kind": kind, "origin": o, "counts": [rng.randint(1, 4) for _ in range(3)],
                  "outer_patch": rng.choice([None, "shapeWall"]), "start_patch": rng.choice([None, "shapeStart"])}
-    deleted = [i for i in range(len(ops)) if rng.random() < 0.12]
+    deleted = [i for i in range(len(ops)) if rng.random() < 0.12 and i not in merge_row]
     if len(deleted) == len(ops):
         deleted = deleted[1:]
     patch_names = sorted({n for op in ops for n in op["patches"].values()})
@@ -179,7 +212,7 @@ def gen_case(ctx):
     return {"ops": ops, "shape": shape, "deleted": deleted, "merges": merges, "geometry": geometry,
             "default": rng.choice([None, None, ["defPatch", "wall"], ["rest", "patch"]]), "modify": modify,
             "settings": settings, "vtk": rng.random() < 0.5, "thin_gap": thin_gap, "shape_del_frac": rng.random(), "geometry_twice": rng.random() < 0.3, "delete_shape_op": rng.random() < 0.3,
-            "pre_history": rng.choice([None, None, "assemble", "clear", "clear", "backport"]), "late_delete": rng.random() < 0.6}
+            "pre_history": rng.choice([None, None, "assemble", "clear", "clear", "backport", "write"]), "late_delete": rng.random() < 0.6}
 
 
 def build(case, cb):
@@ -272,6 +305,11 @@ def build(case, cb):
                 mesh.delete(shape.operations[_shape_del_index(case, shape)])
     elif case.get("pre_history") == "assemble":
         mesh.assemble()
+    elif case.get("pre_history") == "write":
+        # the mesh has been written before: the file judged below is the second one and must render the same declarations
+        first = util.tmpfile("c06w")
+        util.write_outcome(mesh, first)
+        util.rm(first)
     return mesh, objs, shape
 
 
@@ -442,7 +480,7 @@ def run_case(ctx, case):
     if parsed["default_patch"] != want_def:
         ctx.violation("default-patch", f"written {parsed['default_patch']}, declared {want_def}")
         return
-    if [list(m) for m in parsed["merge_pairs"]] != case["merges"]:
+    if sorted(list(m) for m in parsed["merge_pairs"]) != sorted(case["merges"]):
         ctx.violation("merge-pairs", f"written {parsed['merge_pairs']}, declared {case['merges']}")
         return
     want_settings = {"scale": "1"} | {k: str(v) for k, v in case["settings"].items()}
@@ -624,4 +662,8 @@ def _features(case):
                     ("thin_gap", "far-origin-thin-gap")):
         if case.get(k):
             f.add(name)
+    if len(case["merges"]) >= 2:
+        f.add("merge-two-pairs")
+    if case.get("pre_history") == "write":
+        f.add("written-before")
     return f
